@@ -10,7 +10,8 @@ def step (line : String) : String :=
   match parts with
   | op :: _ =>
     if ["esc", "unesc", "hesc", "hunesc", "escdigest"].contains op then C13.run parts
-    else if op.startsWith "av1." then Av1Ops.run parts
+    else if op.startsWith "av1." || op == "c08.av1" || (op == "c08.capi" && parts.getD 1 "" == "av1") then Av1Ops.run parts
+    else if op.startsWith "c08." then RpuOps.run parts
     else if op.startsWith "rpu." || op.startsWith "nalu." then RpuOps.run parts
     else "bad-op"
   | [] => "bad-op"
